@@ -26,7 +26,7 @@ pub fn chain_history(seed: u64, i: u64, len: usize) -> (ChainCase, Vec<String>) 
     let mut p = Profile::base();
     p.registry_pct = 15;
     p.admin_pct = 8;
-    let api = *rng.pick(&[ApiKind::Std, ApiKind::Std, ApiKind::Bech32, ApiKind::Bech32m]);
+    let api = *rng.pick(&[ApiKind::Std, ApiKind::Std, ApiKind::Bech32, ApiKind::Bech32m, ApiKind::Plain]);
     let opts = HistoryOpts { profile: p, len, sweep: false, matrix: false, api, prestored: rng.chance(1, 4), one_address_per_code: rng.chance(1, 12) };
     let mut scratch = Report::new();
     let (case, _discs, t) = run_history_t(&mut rng, &opts, &mut scratch, "C19", true);
